@@ -2,7 +2,7 @@
    Only the property theorems (each closed by [exact]) and Print Assumptions.  [sub_select] models the
    repaired Substrate loop (branch fix-C03); C03_old_sub_select_refuted is about the loop as it was. *)
 From Coq Require Import List NArith Bool.
-From SygmaV Require Import Model.C03 Proofs.C03.
+From SygmaV Require Import Model.C03 Proofs.C03 Model.C03_Conc Proofs.C03_Conc.
 Import ListNotations.
 Local Open Scope N_scope.
 
@@ -177,4 +177,81 @@ Example C03_nonvacuous :
       [Pending; Done; Done]; [Failed; Done; Done]; [Pending; Done; Done]]) /\
   evm_select [((1, 0), Executed); ((1, 1), NotExecuted)] = Ok [(1, 1)] /\
   old_sub_select [((1, 0), Executed); ((1, 1), NotExecuted)] = Ok [(1, 0); (1, 1)].
+Proof. vm_compute. repeat split. Qed.
+
+(* ---- concurrent Bitcoin histories: ONE shared prop store used at the same time by the BTC executor(s) and,
+   without any lock, by the retry handlers (Model/C03_Conc.v).  [conc_run init re ths sched]: the threads [ths]
+   perform their op lists on the shared store in the order [sched] picks; [cproj i]: the history of thread i -
+   per op its error class, its signing sets and the status of every transfer it can name; [solo]: the
+   sequential model of that thread alone on the initial store.  [conc_wf]: the threads' own transfers are
+   pairwise disjoint, the shared ones are recorded executed, every thread names only its own and the shared
+   ones. ---- *)
+
+(* an op of another thread does not touch what it does not name, and nobody changes an executed record *)
+Theorem C03_conc_frame : forall s o k,
+  ~ In k (op_keys o) -> lookup (st (fst (step BTC s o))) k = lookup (st s) k.
+Proof. exact step_frame. Qed.
+Print Assumptions C03_conc_frame.
+
+Theorem C03_executed_read_only : forall s o k,
+  is_done (lookup (st s) k) = true -> lookup (st (fst (step BTC s o))) k = lookup (st s) k.
+Proof. exact step_done_keep. Qed.
+Print Assumptions C03_executed_read_only.
+
+(* under EVERY schedule the history of a thread - signing sets included - is the beginning of its solo
+   history: the ops of the other threads commute with its own as far as it can tell *)
+Theorem C03_disjoint_threads_pointwise : forall init re ths sched i t,
+  conc_wf init re ths = true -> nth_error ths i = Some t ->
+  exists rest, solo init re t = cproj i (conc_run init re ths sched) ++ rest.
+Proof. exact disjoint_threads_pointwise. Qed.
+Print Assumptions C03_disjoint_threads_pointwise.
+
+(* a thread that has performed all of its ops: exactly its solo history, and the sequential judge of the run
+   (hist_ok on the thread's own history) accepts it - this is what justifies judging per goroutine *)
+Theorem C03_conc_complete_thread : forall init re ths sched i t,
+  conc_wf init re ths = true -> nth_error ths i = Some t ->
+  length (cproj i (conc_run init re ths sched)) = length (t_ops t) ->
+  cproj i (conc_run init re ths sched) = solo init re t /\
+  thread_ok init re t (cproj i (conc_run init re ths sched)) = true.
+Proof. exact conc_complete_thread. Qed.
+Print Assumptions C03_conc_complete_thread.
+
+Theorem C03_conc_schedule_independent : forall init re ths sched1 sched2 i t,
+  conc_wf init re ths = true -> nth_error ths i = Some t ->
+  length (cproj i (conc_run init re ths sched1)) = length (t_ops t) ->
+  length (cproj i (conc_run init re ths sched2)) = length (t_ops t) ->
+  cproj i (conc_run init re ths sched1) = cproj i (conc_run init re ths sched2).
+Proof. exact conc_schedule_independent. Qed.
+Print Assumptions C03_conc_schedule_independent.
+
+(* for ALL thread sets (disjoint or not) and ALL schedules: a transfer recorded executed is in no signing set
+   of any thread *)
+Theorem C03_conc_never_resigned : forall init re ths sched k,
+  is_done (lookup init k) = true ->
+  forall e, In e (conc_run init re ths sched) -> ~ In k (concat (o_sets (snd e))).
+Proof. exact conc_never_resigned. Qed.
+Print Assumptions C03_conc_never_resigned.
+
+(* and what the per-thread judge accepts: no transfer recorded executed - the shared ones in particular - is
+   in any signing set of that thread *)
+Theorem C03_conc_judge_never_resigned : forall init re t os k,
+  thread_ok init re t os = true -> In k (t_view re t) -> is_done (lookup init k) = true ->
+  forall ob, In ob os -> ~ In k (concat (o_sets ob)).
+Proof. exact thread_ok_never_resigned. Qed.
+Print Assumptions C03_conc_judge_never_resigned.
+
+(* Non-vacuity: an executor thread (own transfers (1,1), (1,2)) and a retry thread (own transfer (2,1), stuck
+   pending) next to the shared executed transfer (1,9): the executor signs its own two transfers and never
+   (1,9), the retry releases (2,1); the same per-thread histories under two different schedules. *)
+Definition cw_init : store := [((1, 9), Done); ((2, 1), Pending)].
+Definition cw_ths : list thread :=
+  [mkthread [(1, 1); (1, 2)] [Deliver [((1, 9), NoFault); ((1, 1), NoFault); ((1, 2), NoFault)]; ExecOk [(1, 1); (1, 2)];
+                              Deliver [((1, 1), NoFault); ((1, 9), NoFault)]];
+   mkthread [(2, 1)] [Release [(2, 1); (1, 9)]; Release [(1, 9)]]].
+Example C03_conc_nonvacuous :
+  conc_wf cw_init [(1, 9)] cw_ths = true /\
+  map (fun e => (fst e, o_sets (snd e))) (conc_run cw_init [(1, 9)] cw_ths [0; 1; 0; 1; 0]%nat)
+    = [(0%nat, [[(1, 1); (1, 2)]]); (1%nat, []); (0%nat, []); (1%nat, []); (0%nat, [])] /\
+  cproj 0 (conc_run cw_init [(1, 9)] cw_ths [0; 1; 0; 1; 0]%nat) = cproj 0 (conc_run cw_init [(1, 9)] cw_ths [1; 1; 0; 0; 0]%nat) /\
+  map o_snap (cproj 1 (conc_run cw_init [(1, 9)] cw_ths [1; 1; 0; 0; 0]%nat)) = [[Failed; Done]; [Failed; Done]].
 Proof. vm_compute. repeat split. Qed.
